@@ -458,6 +458,8 @@ def verdict(mod, merged, tier, seed, wall, workdir, replay=None):
             f'{k}={v:.3g}' for k, v in sorted(merged['margins'].items())))
 
     if new_keys:
+        import shutil
+        shutil.rmtree(workdir, ignore_errors=True)
         return 1
     if merged['inconclusive']:
         for i in merged['inconclusive'][:5]:
